@@ -32,6 +32,39 @@ CHECKS = {
  "C14": ("exploration", "exhaustive enumeration of storable lines (token adjacencies, numeral spellings, DATA item lists, REM) with a LIST/reload fixed-point and behaviour oracle",
          "Every enumerated program is stored, listed, reloaded from its listing into a fresh interpreter and listed again; listings, stored tokens, RUN transcripts and the DATA items a reader block sees must be identical.",
          "RUN compared with a 300-turn cap; one recorded known finding (symbol followed by a leading-dot numeral)", "4 C14"),
+ "C06": ("exploration", "small-scope exhaustive enumeration of statement contexts x expression trees; analyzer verdict vs execution under every preset",
+         "Every statement context x expression tree (<= 1 operator everywhere, <= 2 in the deep contexts; thorough: <= 2 everywhere) is analysed by the real analyzer and executed by the real interpreter under all four variable presets; accepted programs must never fail with syntax / type mismatch / undefined statement, rejected straight-line statements must fail.",
+         "programs satisfy the precondition on DEF placement by construction", "4 C06"),
+ "C07": ("model_checking", "exhaustive schedule enumeration (all break sets up to k boundaries x inspection menu) on the real interpreter, self-differential against the uninterrupted run",
+         "For 10 fixed programs, every set of <= 2 (quick) / 3 (thorough) turn boundaries is used as break points, each with every inspection statement, followed by CONT; the answered-request transcript and outcome must equal the uninterrupted run. The STOP+assignment clause is checked at every line position with 5 assignments.",
+         "programs limited to the fixed set; boundaries capped at 60 per program", "4 C07"),
+ "C08": ("exploration", "exhaustive enumeration of INPUT placements x targets x replies x REENTER prefixes, self-differential (INPUT vs STOP vs assignment variants)",
+         "Every placement (12) x target (4) x reply (12) x unsuitable-reply prefix is run on the real interpreter and compared with the same program where INPUT is replaced by STOP (state at suspension) and by the assignment of the first reply item (resumption).",
+         "what a numeric-looking reply becomes in a string variable is not compared", "4 C08"),
+ "C09": ("model_checking", "every turn of every enumerated program instrumented with hook counters and kept in stuttering lockstep with the one-statement-per-step reference machine; hand-back at every boundary of non-terminating programs",
+         "Per host call: statement entries <= 1 + IF dispatches, <= 1 print record, trace records = entries, token reads within a fixed multiple of the line length; the (output, variables) observable after each call must be reachable by zero or one reference step; 8 non-terminating programs are broken into at each of their first 200 boundaries.",
+         "work measured as token-cursor reads (hook counters)", "4 C09"),
+ "C10": ("model_checking", "BFS over session histories on the real interpreter with a differential RUN probe in every distinct idle state",
+         "For three observer programs, every history up to the depth bound over the dirtying alphabet is explored with canonical-state dedup; in every distinct idle state RUN (same seed, same replies) must produce the transcript and final state of a fresh interpreter holding the same program.",
+         "equal canonical snapshots have equal futures", "4 C10"),
+ "C11": ("model_checking", "exhaustive enumeration of suspension points x edits x probes (pairs in thorough) on the real interpreter",
+         "Every turn boundary of four suspension programs x 7 edits x 8 probes: after a successful edit CONT/RETURN/NEXT/FN/READ must report the stale reference as gone, variables are kept and the snapshot holds no runtime reference; after a rejected edit every probe behaves as without it.",
+         "identical-text replacement and deletion of an absent line are not counted as changes", "4 C11"),
+ "C15": ("exploration", "exhaustive enumeration of well-formed files (library level) and of all option combinations x both modes on the built abasic binary",
+         "Every file of <= 3 (quick) / 4 (thorough) well-formed menu lines is loaded through the analyzer and, separately, typed line by line: LIST, RUN transcript and final state must be equal. The abasic binary is run for 12 programs x 2^3 option sets in file mode and piped mode; stdout, runtime stderr lines and exit status must agree and the options must take effect.",
+         "NO_COLOR, piped stdio, scratch HOME; programs do not call RND", "4 C15"),
+ "C16": ("model_checking", "invariant checked on the complete state snapshot after every host call of a BFS over a writer-focused alphabet, an exhaustive DIM subscript sweep and cap programs around the limits",
+         "J (<=32 frames, <=32 distinct loops, cells = product of dims <= 10000, name-suffix typing of every stored value and binding) is evaluated in every state reached; attempts to exceed a cap must give OUT OF MEMORY and leave the interpreter usable; all 1..3-tuples over 10 boundary subscripts; cap programs for n = 31, 32, 33.",
+         "snapshot hook renders every stored value", "4 C16"),
+ "C17": ("exploration", "exhaustive enumeration of programs x 8 routes to the 4 (tracing, warnings) configurations; trace and warning records compared with the reference machine",
+         "Every grammar program of the families and the fixed programs are run under all eight routes; filtered transcripts, outcomes and final states must be identical, trace records (collapsed) must equal the reference machine's visited lines and warning records its list of undeclared reads.",
+         "expectations for trace/warnings come from src/refmodel.rs", "4 C17"),
+ "C19": ("model_checking", "BFS over page events where the real main.ts (node vm, types stripped) drives the real JsInterpreter over a synchronous RPC channel, with a mirror core interpreter as oracle",
+         "All page event histories up to the depth bound from 9 start-up configurations: no adapter call may panic, the page script may not throw, and every value the adapter returns (state, output records, error text with source line and caret) must equal what the core interpreter produces for the same calls; after NEW the adapter is probed against a fresh one.",
+         "ui.ts (DOM) is stubbed; at most two timers pending", "4 C19"),
+ "C20": ("exploration", "exhaustive enumeration of open/change/semantic-token histories over a document set against the abasic-lsp binary over stdio, compared with the in-process analyzer (UTF-16 conversion done by the driver)",
+         "Every document (<= 2 / 3 menu lines + 40 non-ASCII documents) is opened and tokenised, every ordered pair over a 30-document core is opened then changed; the server must answer every message, diagnostics must equal the analyzer's messages, and all ranges and tokens must lie inside their line in UTF-16 units with legend types.",
+         "a missing answer within 8 s counts as a dead server", "4 C20"),
 }
 
 NOT_YET = {}
